@@ -265,19 +265,23 @@ def try_builtin(it, callee, args):
                 out.append(x)
             return VecV(out)
         if name == "for_each":
+            from interp import Cell as _Cell
+            cl = _Cell(args[1])
             while True:
                 x = itr.next(it)
                 if x is None:
                     break
-                it.call_closure(args[1], [x])
+                it.call_closure(cl, [x])
             return UNIT
         if name == "fold":
+            from interp import Cell as _Cell
+            cl = _Cell(args[2])
             acc = args[1]
             while True:
                 x = itr.next(it)
                 if x is None:
                     break
-                acc = it.call_closure(args[2], [acc, x])
+                acc = it.call_closure(cl, [acc, x])
             return acc
         if name == "count":
             n = 0
